@@ -940,12 +940,17 @@ class Fxp():
             return self
 
         # convert input value to valid format
+        _status_before = dict(self.status) if index is not None else None
         val, original_vdtype, raw = self._format_inupt_val(val, raw=raw)
 
-        if index is not None and isinstance(self.val, np.ndarray) and self.val.ndim > 0 and isinstance(val, np.ndarray) and val.ndim > 0:
+        if index is not None and isinstance(self.val, np.ndarray) and isinstance(val, np.ndarray) and val.ndim > 0:
             # a value that does not fit the selection is rejected here, before anything is changed (value type, a complex
             # buffer, flags, callbacks): the same broadcast NumPy applies to the assignment, tried on scratch arrays
-            np.empty(np.shape(self.val[index]), dtype=bool)[...] = np.zeros(val.shape, dtype=bool)
+            try:
+                np.empty(np.shape(self.val[index]), dtype=bool)[...] = np.zeros(val.shape, dtype=bool)
+            except (ValueError, IndexError):
+                self.status.update(_status_before)      # (a fixed-point source has handed its inaccuracy flag over already)
+                raise
 
         # val limits according word size
         if self.signed:
